@@ -35,9 +35,9 @@ ASSUMPTIONS = [
     "a null / NaN value supplied for an entity is the same as supplying none",
 ]
 RULE = ("histories of 2-4 entity batches interleaved with 1-5 attributes (all four layouts; arrays / series / data frame / frame indexed by id; "
-        "int or string ids; int / float / string values; nulls, empty lists, zero vectors, all-zero sparse rows) over permuted subsets of the known "
+        "int or string ids, the identifier array of every batch / attribute / selection of its own width (int8/16/32/64, Python ints: later batches wider or narrower); int / float / string values; nulls, empty lists, zero vectors, all-zero sparse rows) over permuted subsets of the known "
         "ids, then 3-8 queries (all entities, permuted subsets with undefined entities, empty selection); separate malformed stream (unknown ids, "
-        "re-added names and entities, unknown selections); non-trivial = at least two layouts, an attribute given for a proper subset in non-table "
+        "re-added names and entities, unknown selections); declared dimension names and vector sizes re-read after every accepted builder call; non-trivial = at least two layouts, an attribute given for a proper subset in non-table "
         "order, an entity batch added after an attribute, and a query selecting both defined and undefined entities; distinct = by hash of the case")
 
 NID = 14
@@ -55,6 +55,14 @@ def g_scalar_val(rng, vtype):
     return rng.randint(-10, 60)
 
 
+IDDTYPES = ["i1", "i2", "i4", "i8", "py"]
+
+
+def g_iddtype(rng, idtype):
+    """the width of the identifier array of one call: later batches may be wider or narrower than earlier ones"""
+    return rng.choice(IDDTYPES) if idtype == "int" else "str"
+
+
 def g_attr(rng, name, known, idtype, malformed):
     layout = rng.weighted([("scalar", 4), ("list", 3), ("vector", 4), ("sparse", 3)])
     cover = rng.weighted([("subset", 5), ("all", 2 if layout != "vector" else 4), ("one", 1), ("none", 1)])
@@ -69,7 +77,7 @@ def g_attr(rng, name, known, idtype, malformed):
     ids = rng.shuffle(ids) if rng.chance(5, 6) else sorted(ids)
     if malformed == "unknown":
         ids = ids + [rng.choice([k for k in range(NID + 3) if k not in known])]
-    o = {"op": layout, "name": name, "ids": ids, "idkind": rng.choice(["list", "numpy"])}
+    o = {"op": layout, "name": name, "ids": ids, "idkind": rng.choice(["list", "numpy"]), "iddtype": g_iddtype(rng, idtype)}
     n = len(ids)
     if layout == "scalar":
         vt = rng.choice(["int", "float", "str"])
@@ -139,10 +147,11 @@ def gen_case(rng, malformed=False):
             if not new:
                 continue
             if bad == "dupent" and known:
-                cs["ops"].append({"op": "entities", "ids": new + [rng.choice(known)], "kind": "list"})
+                cs["ops"].append({"op": "entities", "ids": new + [rng.choice(known)], "kind": "list", "dtype": g_iddtype(rng, idtype)})
                 pool.extend(new)
                 continue
-            cs["ops"].append({"op": "entities", "ids": new, "kind": rng.choice(["list", "numpy", "arrow", "series"])})
+            cs["ops"].append({"op": "entities", "ids": new, "kind": rng.choice(["list", "numpy", "arrow", "series"]),
+                              "dtype": g_iddtype(rng, idtype)})
             known = known + sorted(new)
         else:
             name = len(names)
@@ -169,7 +178,7 @@ def gen_case(rng, malformed=False):
                 sel = sel + [sel[0]]
         if malformed and sel is not None and rng.chance(1, 8):
             sel = sel + [NID + 5]
-        cs["queries"].append({"name": name, "sel": sel})
+        cs["queries"].append({"name": name, "sel": sel, "dtype": g_iddtype(rng, idtype)})
     return cs
 
 
@@ -201,13 +210,13 @@ def _setup():
 
 
 def _id(idtype, k):
-    return 1000 + 3 * k if idtype == "int" else "e%02d" % k
+    return 5 * k - 30 if idtype == "int" else "e%02d" % k          # -30 .. 55: fits every integer width
 
 
 def _unid(x):
     if isinstance(x, (bytes, str)):
         return int(x[1:])
-    return (int(x) - 1000) // 3
+    return (int(x) + 30) // 5
 
 
 def _val(vtype, v):
@@ -234,14 +243,29 @@ def _unval(vtype, x):
     return int(q)
 
 
-def _ids_arr(ids, idtype, kind):
+NPT = {"i1": "int8", "i2": "int16", "i4": "int32", "i8": "int64", "py": "int64"}
+
+
+def _ids_arr(ids, idtype, kind, dtype=None):
     vals = [_id(idtype, k) for k in ids]
+    if idtype != "int":
+        if kind == "numpy":
+            return np.array(vals, dtype=object)
+        if kind == "arrow":
+            return pa.array(vals, type=pa.utf8())
+        if kind == "series":
+            return pd.Series(vals, dtype=object)
+        return vals
+    dtype = dtype or "i8"
+    if dtype == "py" or kind == "list":
+        return [int(v) for v in vals]                      # plain Python integers (inferred as int64)
+    npt = np.dtype(NPT[dtype])
     if kind == "numpy":
-        return np.array(vals, dtype=np.int64 if idtype == "int" else object) if vals or idtype == "int" else np.array([], dtype=object)
+        return np.array(vals, dtype=npt)
     if kind == "arrow":
-        return pa.array(vals, type=pa.int64() if idtype == "int" else pa.utf8())
+        return pa.array(vals, type=pa.from_numpy_dtype(npt))
     if kind == "series":
-        return pd.Series(vals, dtype=np.int64 if idtype == "int" else object)
+        return pd.Series(vals, dtype=npt)
     return vals
 
 
@@ -258,10 +282,10 @@ def _undim(x):
 def _apply(b, cls, o, idtype):
     op = o["op"]
     if op == "entities":
-        b.add_entities(cls, _ids_arr(o["ids"], idtype, o["kind"]))
+        b.add_entities(cls, _ids_arr(o["ids"], idtype, o["kind"], o.get("dtype")))
         return
     name = "a%d" % o["name"]
-    ids = _ids_arr(o["ids"], idtype, o["idkind"])
+    ids = _ids_arr(o["ids"], idtype, o["idkind"], o.get("iddtype"))
     if op in ("scalar", "list"):
         vt = o["vtype"]
         if op == "scalar":
@@ -293,11 +317,11 @@ def _apply(b, cls, o, idtype):
                 vals = pyvals
             add(cls, name, ids, vals, **kw)
         elif form == "series":
-            ser = pd.Series(pyvals, index=pd.Index(idl, dtype=np.int64 if idtype == "int" else object), dtype=object if objdt else None)
+            ser = pd.Series(pyvals, index=pd.Index(idl, dtype=getattr(ids, "dtype", np.int64) if idtype == "int" else object), dtype=object if objdt else None)
             add(cls, name, ser, **kw)
         else:
             col = pd.Series(pyvals, dtype=object if objdt else None)
-            idc = pd.Series(idl, dtype=np.int64 if idtype == "int" else object)
+            idc = pd.Series(idl, dtype=getattr(ids, "dtype", np.int64) if idtype == "int" else object)
             if form == "frame":
                 df = pd.DataFrame({cls + "_id": idc, name: col})
             else:
@@ -390,22 +414,75 @@ def _view(at, layout, vt, fmt_bad):
     return {"layout": "sparse", "ids": ids, "ncol": int(csr.shape[1]), "dims": dims, "arrow": arrow, "rows": rows, "dropped": dropped}
 
 
+def _describe(case, upto):
+    """the history of builder calls up to and including step `upto`, in one line"""
+    parts = []
+    for o in case["ops"][: upto + 1]:
+        if o["op"] == "entities":
+            dt = "py" if o["kind"] == "list" and o.get("dtype") != "str" else o.get("dtype", "")      # a Python list is inferred as int64
+            parts.append(f"entities[{dt}/{o['kind']}]x{len(o['ids'])}")
+        else:
+            parts.append(f"{o['op']} a{o['name']}" + (" +dims" if o.get("dims") else ""))
+    return " -> ".join(parts)
+
+
+def _check_declared(b, cls, declared, oi, case):
+    """After builder call `oi`: every dense / sparse vector attribute still shows its declared dimension names and size,
+    in every read form that carries them."""
+    bad = []
+    es = b.build().entities(cls)
+    for name, o in declared.items():
+        what = f"after step {oi} ({_describe(case, oi)}): a{name}"
+        try:
+            at = es.attribute("a%d" % name)
+        except KeyError:
+            bad.append(["attribute-lost-after:" + case["ops"][oi]["op"], f"{what} can no longer be read"])
+            continue
+        dims = at.dim_names
+        dims = None if dims is None else [_undim(x) for x in dims]
+        key = f"dims-size-after:{case['ops'][oi]['op']}:{o['op']}"
+        if dims != o["dims"]:
+            bad.append([key, f"{what} declared dim_names {o['dims']}, now {dims}"])
+        try:
+            if o["op"] == "vector":
+                if at.vector_size != o["size"] or at.numpy().shape[1] != o["size"]:
+                    bad.append([key, f"{what} declared size {o['size']}, now {at.vector_size} / {at.numpy().shape}"])
+                cols = at.pandas().columns.tolist()
+                want = list(range(o["size"])) if o["dims"] is None else _dimnames(o)
+                if cols != want:
+                    bad.append([key, f"{what} pandas() columns {cols}, declared {want}"])
+            else:
+                if at.scipy().shape[1] != o["ncol"] or at.torch().shape[1] != o["ncol"]:
+                    bad.append([key, f"{what} declared {o['ncol']} columns, now {at.scipy().shape}"])
+        except Exception as e:
+            bad.append(["reader-raised-after:" + case["ops"][oi]["op"], f"{what}: {type(e).__name__}: {str(e)[:120]}"])
+    return bad
+
+
 def run_impl(case):
     _setup()
     idtype, cls = case["idtype"], case["cls"]
     b = DatasetBuilder()
     outcomes = []
     info = {}
-    for o in case["ops"]:
+    meta_bad = []
+    declared = {}
+    for oi, o in enumerate(case["ops"]):
         try:
             _apply(b, cls, o, idtype)
             outcomes.append(None)
             if o["op"] != "entities":
                 info[o["name"]] = (o["op"], o.get("vtype"))
+                if o["op"] in ("vector", "sparse"):
+                    declared[o["name"]] = o
         except DataError:
             outcomes.append("EData")
+            continue
         except NotImplementedError:
             outcomes.append("ENotImpl")
+            continue
+        if declared:
+            meta_bad += _check_declared(b, cls, declared, oi, case)
     ds = b.build()
     es = ds.entities(cls)
     rows = [_unid(i) for i in es.ids().tolist()]
@@ -415,7 +492,7 @@ def run_impl(case):
         e2 = es
         if q["sel"] is not None:
             try:
-                e2 = es.select(ids=_ids_arr(q["sel"], idtype, "numpy" if q["sel"] else "list"))
+                e2 = es.select(ids=_ids_arr(q["sel"], idtype, "numpy" if q["sel"] else "list", q.get("dtype")))
             except KeyError:
                 answers.append({"err": "EKey"})
                 continue
@@ -431,7 +508,7 @@ def run_impl(case):
         except Exception as e:           # a reader of an existing attribute must not raise
             answers.append({"layout": "raised", "what": f"{type(e).__name__}: {str(e)[:150]}"})
         fmt_bad += [f"query {len(answers) - 1}: {m}" for m in bad]
-    return {"outcomes": outcomes, "rows": rows, "answers": answers, "fmt_bad": fmt_bad}
+    return {"outcomes": outcomes, "rows": rows, "answers": answers, "fmt_bad": fmt_bad, "meta_bad": meta_bad}
 
 
 # ---------------------------------------------------------------------------------------------
@@ -496,7 +573,7 @@ def c_view(a):
 
 
 def coq_term(case, obs):
-    if obs["fmt_bad"] or any(a.get("layout") == "raised" for a in obs["answers"]):
+    if obs["fmt_bad"] or obs["meta_bad"] or any(a.get("layout") == "raised" for a in obs["answers"]):
         return "false"
     ops = clist(case["ops"], c_op)
     out = clist(obs["outcomes"], lambda e: copt(e, str))
@@ -532,6 +609,8 @@ def oracle(case, obs):
     v = []
     for m in obs["fmt_bad"]:
         v.append(("output-forms-disagree", m))
+    for k, m in obs["meta_bad"]:
+        v.append((k, m))
     known = set()
     for o, res in zip(case["ops"], obs["outcomes"]):
         # calls that must be refused / accepted
@@ -600,7 +679,7 @@ def oracle(case, obs):
         elif lay == "vector":
             size = o["size"]
             if a["size"] != size or a["dims"] != o["dims"]:
-                v.append(("dims-size:vector", f"query {qi}: vector_size/dim_names {a['size']}/{a['dims']}, declared {size}/{o['dims']}"))
+                v.append(("dims-size:vector", f"query {qi} after {_describe(case, len(case['ops']) - 1)}: vector_size/dim_names {a['size']}/{a['dims']}, declared {size}/{o['dims']}"))
             wm = [d[i] if i in d else [None] * size for i in sel]
             if a["matrix"] != wm:
                 v.append(("read-back:vector:numpy", f"query {qi}: numpy() gives {a['matrix']}, supplied {wm}"))
@@ -611,7 +690,7 @@ def oracle(case, obs):
                 v.append(("read-back:vector:pandas-omit", f"query {qi}: pandas(missing='omit') gives {a['pd_omit']}, supplied {wo}"))
         else:
             if a["ncol"] != o["ncol"] or a["dims"] != o["dims"]:
-                v.append(("dims-size:sparse", f"query {qi}: columns/dim_names {a['ncol']}/{a['dims']}, declared {o['ncol']}/{o['dims']}"))
+                v.append(("dims-size:sparse", f"query {qi} after {_describe(case, len(case['ops']) - 1)}: columns/dim_names {a['ncol']}/{a['dims']}, declared {o['ncol']}/{o['dims']}"))
             wr = [d.get(i, []) for i in sel]
             if a["rows"] != wr:
                 v.append(("read-back:sparse:scipy", f"query {qi}: scipy() rows {a['rows']}, supplied {wr}"))
@@ -645,13 +724,23 @@ def counters(case, obs):
     yield "style=" + case["style"]
     yield "idtype=" + case["idtype"]
     yield "class=" + case["cls"]
-    seen_attr = False
+    seen_attr, widest, dims_seen = False, 0, False
     for o, r in zip(case["ops"], obs["outcomes"]):
         yield f"op={o['op']}:{r or 'ok'}"
         if o["op"] == "entities":
+            yield "batch-id-dtype=" + o.get("dtype", "?")
+            if r is None and case["idtype"] == "int":
+                w = {"i1": 1, "i2": 2, "i4": 4, "i8": 8, "py": 8}[o["dtype"]] if o["kind"] != "list" else 8
+                if widest and w > widest:
+                    yield "later-batch-wider" + ("-after-vector-with-dims" if dims_seen else "")
+                elif widest and w < widest:
+                    yield "later-batch-narrower"
+                widest = max(widest, w)
             if seen_attr and r is None:
                 yield "entities-after-attribute"
             continue
+        if r is None and o.get("dims"):
+            dims_seen = True
         seen_attr = True
         if r is None:
             yield "form=" + o["op"] + "/" + o.get("form", o.get("fmt", ""))
